@@ -43,7 +43,10 @@ theorem generate_ok {s : St} (c : Cache) (h1 : s.accumulated ≤ s.capacity)
     apply Nat.div_le_of_le_mul
     calc genTot s * s.boostedPct ≤ genTot s * 10000 := Nat.mul_le_mul_left _ h2
       _ = 10000 * genTot s := Nat.mul_comm _ _
-  simp [generate, genSt, genCache, h1, hcut]
+  have e1 : req (s.accumulated ≤ s.capacity) = some () := (req_eq_some ()).2 h1
+  have e2 : req (genCut s (genTot s) ≤ genTot s) = some () := (req_eq_some ()).2 hcut
+  simp only [generate, e1, e2, Option.bind_eq_bind, Option.bind_some, Option.pure_def]
+  rfl
 
 theorem genTot_le_room (s : St) : genTot s ≤ s.capacity - s.accumulated := Nat.min_le_right _ _
 
